@@ -12,6 +12,7 @@
   selection (`ServerPlayback._hash` before `repr`/SHA-256).
 -/
 import MitmVerif.Basic.Bytes
+import MitmVerif.Model.C34
 namespace MitmVerif.C52
 
 /-- a recorded flow: `id` names the Python object, `hasResp` is `bool(flow.response)`,
@@ -199,10 +200,19 @@ structure ReqF where
   host : Bytes                       -- pretty_host
   port : Nat
   body : Option Bytes                -- raw_content
-  multipart : List (Bytes × Bytes)   -- r.multipart_form.items(multi=True) ([] when not multipart)
+  boundary : Option Bytes            -- the boundary parameter of a multipart/form-data content-type (none: not multipart)
   urlencoded : List (Bytes × Bytes)  -- r.urlencoded_form.items(multi=True)
   headers : List (Bytes × Bytes)     -- r.headers.fields: (name, value) as received, in order
 deriving DecidableEq, Repr
+
+/-- `Request._get_multipart_form` (mitmproxy/http.py) over `multipart.decode_multipart` (net/http/multipart.py, the
+    transcription `C34.decodeMultipart`: split at `--boundary`, the part's name is `re.search(rb'\bname="([^"]+)"')` on
+    its first header line, the value is what follows the first empty line): `[]` when the content-type is not
+    multipart/form-data, there is no content, or the decoder raises ValueError -/
+def ReqF.multipart (r : ReqF) : List (Bytes × Bytes) :=
+  match r.boundary, r.body with
+  | some b, some c => (C34.decodeMultipart b c).getD []
+  | _, _ => []
 
 /-- what `_hash` adds to the key for the content: either `str(raw_content)`, or one tuple per non-ignored
     form field.  Multipart fields are tuples of `bytes`, urlencoded fields tuples of `str` (the `Bool` tag), so
